@@ -41,7 +41,9 @@ def rename_spec(spec, mapping):
     """R-paramrename: the same contract with parameter names replaced (the function's parameters were renamed, types unchanged)"""
     import copy
     def sub(t):
-        for a, b in mapping.items(): t = re.sub(r"(?<![\w.])%s\b(?!\s*:)" % re.escape(a), "\x00" + b + "\x00", t)
+        for a, b in mapping.items():
+            t = re.sub(r"(?<![\w.])%s\b(?!\s*:)" % re.escape(a), "\x00" + b + "\x00", t)
+            t = re.sub(r"\b__I_%s\b" % re.escape(a), "\x00__I_" + b + "\x00", t)     # R-implarg names the generic after the parameter
         return t.replace("\x00", "")
     c = copy.copy(spec)
     c.requires = [(l, sub(t)) for l, t in spec.requires]; c.ensures = [(l, sub(t)) for l, t in spec.ensures]
@@ -775,21 +777,26 @@ class FileEmitter:
         ctx = self.ctx
         ik = impl_key(parent) if parent is not None and parent.kind in ("impl", "trait") else "-"
         key = (self.rel, ik, it.name)
-        self.cur_key = "%s|%s::%s" % key
+        self.cur_key = "%s|%s::%s" % key; self.old_key = None
         spec = ctx.specs.fns.get(key)
         if spec is None and key in getattr(ctx, "renames", {}):
             # R-renamed: the runner found that a contracted function was renamed (same impl, same signature, old name gone): the contract follows it
-            spec = ctx.specs.fns.get((self.rel, ik, ctx.renames[key]))
-            if spec: ctx.log("R-renamed", self.rel, it.line, ctx.renames[key], it.name)
+            okey = ctx.renames[key]; orel, orest = okey.split("|", 1); oik, oname = orest.rsplit("::", 1)
+            spec = ctx.specs.fns.get((orel, oik, oname))
+            if spec: ctx.log("R-renamed", self.rel, it.line, okey, "%s|%s::%s" % key); self.old_key = okey
         if spec: spec.used = True
         if ("%s|%s::%s" % key) in ctx.drop_contract_fns: spec = None   # contract no longer fits the (changed) signature
         sig = R.text(it.sig).replace("crate::core", "crate::rp_core")
         if "ValidatorFn" in sig:
             new = re.sub(r"(&'static\s+)ValidatorFn\b", r"\1dyn ValidatorFn", sig)
             if new != sig: ctx.log("R-dynfn", self.rel, it.line, sig.strip()[:120], new.strip()[:120]); sig = new
+        if re.search(r"[(,]\s*_\s*:", sig):
+            n_ = [0]
+            def us(m): n_[0] += 1; return "%s_unused%d:" % (m.group(1), n_[0])
+            new = re.sub(r"([(,]\s*)_\s*:", us, sig); ctx.log("R-underscore", self.rel, it.line, sig.strip()[:80], new.strip()[:80]); sig = new
         d = sig_split(sig)
         pn = param_names(d["params"])
-        bp = getattr(ctx, "baseline_params", {}).get("%s|%s::%s" % key)
+        bp = getattr(ctx, "baseline_params", {}).get(getattr(self, "old_key", None) or "%s|%s::%s" % key)
         if spec and pn and bp and len(pn) == len(bp) and [t for _, t in pn] == [t for _, t in bp] and [n for n, _ in pn] != [n for n, _ in bp]:
             mapping = {o: n for (o, _), (n, _) in zip(bp, pn) if o != n}
             if not (set(mapping.values()) & set(o for o, _ in bp)):     # no swap / capture
@@ -855,7 +862,7 @@ class FileEmitter:
         ctx.fn_index.append({"file": self.rel, "impl": ik, "fn": it.name, "line": it.line, "external_body": bool(ext or self.stub), "stubbed": bool(stub_this and not ext), "forced_stub_reason": forced_reason,
                              "body_hash": bh, "hints_dropped": list(self.dropped_hints) if (body is not None and not ext and not stub_this) else [],
                              "body_text": re.sub(r"\s+", " ", body or "")[:6000],
-                             "params": pn,
+                             "params": pn, "closure_calls": len(re.findall(r"\.(?:map|map_err|and_then|or_else|ok_or_else|unwrap_or_else|filter|filter_map|for_each|fold|any|all|then|map_or|map_or_else|find|position|retain)\(\s*(?:move\s*)?\|", body or "")),
                              "sig_norm": R.norm(re.sub(r"\bfn\s+%s\b" % re.escape(it.name), "fn _", R.text(it.sig), count=1)),
                              "contract": bool(spec), "safety": spec.safety if spec else [],
                              "labels": [l for l, _ in (spec.requires + spec.ensures)] if spec else [],
@@ -896,10 +903,16 @@ class FileEmitter:
 
     def disp_spec(self, parent, body):
         """R-display: write!(f, "{}", self.F) -> DispSpec impl delegating to F"""
-        m = re.search(r'write!\(f,\s*"\{\}",\s*&?(self\.\w+)\)', body or "") or re.search(r'\bf\.write_str\(\s*&?(self\.\w+)\s*\)', body or "")
+        m = re.search(r'write!\(\w+,\s*"\{\}",\s*&?(self\.\w+)\)', body or "") or re.search(r'\b\w+\.write_str\(\s*&?(self\.\w+)\s*\)', body or "")
         if not m:
-            if re.search(r'write!\(f,\s*"[^{}"]*"\)', body or ""): return  # constant text (Debug for Key)
-            raise ExtractError("%s:%d unsupported Display body" % (self.rel, parent.line))
+            if re.search(r'write!\(\w+,\s*"[^{}"]*"\)', body or ""): return  # constant text (Debug for Key)
+            # a Display body of another shape: its text is unknown to the verifier (uninterpreted), whatever rested on it fails honestly
+            h = re.sub(r"\s+", " ", R.text(parent.header)).strip()
+            mm = re.match(r"impl\s*(<.*?>)?\s*(?:fmt::|std::fmt::)?Display for (.+?)(\s+where .*)?$", h)
+            if mm:
+                c = "impl%s DispSpec for %s %s { uninterp spec fn disp_spec(&self) -> Seq<char>; }\n" % (mm.group(1) or "", mm.group(2), mm.group(3) or "")
+                self.ctx.log("R-display", self.rel, parent.line, h, "(body shape not recognised: uninterpreted text) " + c); self.extra.append(c)
+            return
         h = re.sub(r"\s+", " ", R.text(parent.header)).strip()
         mm = re.match(r"impl\s*(<.*?>)?\s*(?:fmt::|std::fmt::)?Display for (.+?)(\s+where .*)?$", h)
         g = mm.group(1) or ""; ty = mm.group(2); wh = mm.group(3) or ""
